@@ -253,6 +253,40 @@ fn arrow_inner(input: &[u8], rg: &RefGame) -> Result<u64, (String, String)> {
 						return Err(e("validity", format!("{}.{}.{} row {} is null although the character is present", pname, cname, kind.name(), i)));
 					}
 				}
+				// struct-level validity: every struct under a character that has a validity slot in memory is
+				// exported with exactly those bits (an absent character is null at every level, not only at the top)
+				{
+					let data = if fo { g1.frames.ports[pi].follower.as_ref().unwrap() } else { &g1.frames.ports[pi].leader };
+					let mut nested: Vec<(&str, Option<&arrow2::bitmap::Bitmap>)> = vec![];
+					match kind {
+						Kind::Pre => {
+							let x = &data.pre;
+							nested.push(("", x.validity.as_ref()));
+							nested.push(("position", x.position.validity.as_ref()));
+							nested.push(("joystick", x.joystick.validity.as_ref()));
+							nested.push(("cstick", x.cstick.validity.as_ref()));
+							nested.push(("triggers_physical", x.triggers_physical.validity.as_ref()));
+						}
+						_ => {
+							let x = &data.post;
+							nested.push(("", x.validity.as_ref()));
+							nested.push(("position", x.position.validity.as_ref()));
+							if let Some(vl) = &x.velocities {
+								nested.push(("velocities", vl.validity.as_ref()));
+							}
+						}
+					}
+					for (name, mem) in nested {
+						let arr = if name.is_empty() { ksa } else { view::arrow_child(ksa, name).and_then(view::arrow_struct).ok_or_else(|| e("name", format!("no struct {}.{}.{}.{}", pname, cname, kind.name(), name)))? };
+						for i in 0..rows {
+							let a = arr.validity().map_or(true, |b| b.get_bit(i));
+							let m = mem.map_or(true, |b| b.get_bit(i));
+							if a != m {
+								return Err(e("validity", format!("{}.{}.{}{}{} row {}: exported validity bit {} but the in-memory struct has {}", pname, cname, kind.name(), if name.is_empty() { "" } else { "." }, name, i, a, m)));
+							}
+						}
+					}
+				}
 				for li in 0..n {
 					let row = &spec::layout(kind)[li];
 					let mem = FrameLike::leaf(&g1.frames, kind, pi, fo, li);
